@@ -4,6 +4,7 @@ import (
 	"bufio"
 	"bytes"
 	"context"
+	"crypto/tls"
 	"encoding/hex"
 	"fmt"
 	"io"
@@ -16,6 +17,7 @@ import (
 	"sync"
 	"time"
 
+	"github.com/prometheus/client_golang/prometheus"
 	"github.com/saucelabs/forwarder"
 	"github.com/saucelabs/forwarder/log"
 
@@ -53,7 +55,25 @@ func childMain(mode string) {
 		}
 	}()
 	addrs, _ := hp.Addr()
-	fmt.Printf("READY %s %s\n", addrs[0], ol.Addr().String())
+	// the same with TLS on the listener: the PROXY header travels in clear BEFORE the TLS handshake
+	cfgS := forwarder.DefaultHTTPProxyConfig()
+	cfgS.ListenerConfig = *forwarder.DefaultListenerConfig("127.0.0.1:0")
+	cfgS.ProxyProtocolConfig = &forwarder.ProxyProtocolConfig{ReadHeaderTimeout: e2eHeaderTimeout}
+	cfgS.ProxyLocalhost = forwarder.AllowProxyLocalhost
+	cfgS.Protocol = forwarder.HTTPSScheme
+	cfgS.PromRegistry = prometheus.NewRegistry()
+	hps, err := forwarder.NewHTTPProxy(cfgS, nil, nil, nil, log.NopLogger, nil)
+	if err != nil {
+		panic(err)
+	}
+	go func() {
+		if err := hps.Run(ctx); err != nil && ctx.Err() == nil {
+			fmt.Fprintln(os.Stderr, "https proxy Run returned:", err)
+			os.Exit(7)
+		}
+	}()
+	addrsS, _ := hps.Addr()
+	fmt.Printf("READY %s %s %s\n", addrs[0], ol.Addr().String(), addrsS[0])
 	io.Copy(io.Discard, os.Stdin) // parent closes stdin to stop us
 	cancel()
 }
@@ -62,6 +82,7 @@ type child struct {
 	cmd    *exec.Cmd
 	stdin  io.WriteCloser
 	proxy  string
+	proxyS string // the HTTPS proxy (TLS on the listener)
 	origin string
 	stderr *bytes.Buffer
 	done   chan struct{}
@@ -92,10 +113,10 @@ func startChild() (*child, error) {
 	select {
 	case l := <-lineCh:
 		f := strings.Fields(l)
-		if len(f) != 3 || f[0] != "READY" {
+		if len(f) != 4 || f[0] != "READY" {
 			return nil, fmt.Errorf("child did not start: %q %s", l, c.stderr.String())
 		}
-		c.proxy, c.origin = f[1], f[2]
+		c.proxy, c.origin, c.proxyS = f[1], f[2], f[3]
 	case <-time.After(20 * time.Second):
 		return nil, fmt.Errorf("child start timeout")
 	}
@@ -160,6 +181,46 @@ func exchange(proxy string, raw []byte, cuts []int, deadline time.Duration) e2eO
 	return o
 }
 
+// exchangeTLS sends the PROXY header in clear, then does the TLS handshake with the proxy and sends the request inside.
+func exchangeTLS(proxy string, hdr, req []byte, cuts []int, deadline time.Duration) e2eObs {
+	t0 := time.Now()
+	conn, err := net.DialTimeout("tcp", proxy, 2*time.Second)
+	if err != nil {
+		return e2eObs{Status: -1}
+	}
+	defer conn.Close()
+	conn.(*net.TCPConn).SetNoDelay(true)
+	for _, s := range segments(hdr, cuts) {
+		if len(s) > 0 {
+			conn.Write(s)
+			time.Sleep(200 * time.Microsecond)
+		}
+	}
+	conn.SetDeadline(time.Now().Add(deadline))
+	tc := tls.Client(conn, &tls.Config{InsecureSkipVerify: true}) //nolint:gosec // test peer with a self-signed certificate
+	fail := func(err error) e2eObs {
+		ne, isNet := err.(net.Error)
+		return e2eObs{Status: 0, Elapsed: time.Since(t0), Closed: !(isNet && ne.Timeout())}
+	}
+	if err := tc.Handshake(); err != nil {
+		return fail(err)
+	}
+	if _, err := tc.Write(req); err != nil {
+		return fail(err)
+	}
+	resp, err := http.ReadResponse(bufio.NewReader(tc), nil)
+	if err != nil {
+		return fail(err)
+	}
+	defer resp.Body.Close()
+	body, _ := io.ReadAll(resp.Body)
+	o := e2eObs{Status: resp.StatusCode, Elapsed: time.Since(t0)}
+	if i := bytes.Index(body, []byte("xff=")); i >= 0 {
+		o.XFF = string(body[i+4:])
+	}
+	return o
+}
+
 func request(origin string) []byte {
 	return []byte("GET http://" + origin + "/ HTTP/1.1\r\nHost: " + origin + "\r\nConnection: close\r\n\r\n")
 }
@@ -173,6 +234,7 @@ type ecaseJSON struct {
 
 type e2eMeta struct {
 	Cases       int              `json:"cases"`
+	TLSCases    int              `json:"cases_over_tls"`
 	Served      int              `json:"served"`
 	Crashes     int              `json:"crashes"`
 	ChildStarts int              `json:"child_starts"`
@@ -268,9 +330,19 @@ func runE2E(out string, r *rng.R, thorough bool, m *meta) {
 			continue
 		}
 		seen[string(h)] = true
-		coqc, jsn := e2eCase(ensure, h, r, goodHdr, &em)
+		coqc, jsn := e2eCase(ensure, h, r, goodHdr, &em, false)
 		coq = append(coq, coqc)
 		js = append(js, jsn)
+	}
+	// the HTTPS proxy: header in clear, then TLS (listener stacking: PROXY protocol below TLS)
+	for i, h := range e2eHeaders(r, thorough) {
+		if !thorough && i%4 != 1 && i > 12 {
+			continue
+		}
+		coqc, jsn := e2eCase(ensure, h, r, goodHdr, &em, true)
+		coq = append(coq, coqc)
+		js = append(js, jsn)
+		em.TLSCases++
 	}
 	em.Cases = len(coq)
 	em.Timeouts = timeoutProbes(ensure, goodHdr, thorough)
@@ -278,7 +350,7 @@ func runE2E(out string, r *rng.R, thorough bool, m *meta) {
 	m.Kinds = append(m.Kinds, writeKind(out, "ecases", "ecase", "ecase_model_ok", "ecase_verdict", coq, js, 60, ""))
 }
 
-func e2eCase(ensure func() *child, h []byte, r *rng.R, goodHdr []byte, em *e2eMeta) (string, ecaseJSON) {
+func e2eCase(ensure func() *child, h []byte, r *rng.R, goodHdr []byte, em *e2eMeta, overTLS bool) (string, ecaseJSON) {
 	c := ensure()
 	req := request(c.origin)
 	raw := append(append([]byte{}, h...), req...)
@@ -286,7 +358,16 @@ func e2eCase(ensure func() *child, h []byte, r *rng.R, goodHdr []byte, em *e2eMe
 	if len(h) > 2 && len(h) < 200 {
 		cuts = []int{1 + r.Intn(len(h)-1), len(h)}
 	}
-	o := exchange(c.proxy, raw, cuts, e2eHeaderTimeout+1500*time.Millisecond)
+	var o e2eObs
+	if overTLS {
+		var hc []int
+		if len(cuts) > 0 {
+			hc = cuts[:1]
+		}
+		o = exchangeTLS(c.proxyS, h, req, hc, e2eHeaderTimeout+1500*time.Millisecond)
+	} else {
+		o = exchange(c.proxy, raw, cuts, e2eHeaderTimeout+1500*time.Millisecond)
+	}
 	// liveness: the process is still there and serves a well-formed connection
 	time.Sleep(15 * time.Millisecond)
 	crashed := c.dead()
@@ -325,7 +406,11 @@ func e2eCase(ensure func() *child, h []byte, r *rng.R, goodHdr []byte, em *e2eMe
 	coq := fmt.Sprintf("{| e_hdr := %s; e_req := %s; e_crashed := %s; e_alive := %s; e_status := %d; e_xff := %s; e_sock_ip := %s; e_closed := %s |}",
 		coqfmt.Bytes(h), coqfmt.Bytes(req), coqfmt.Bool(crashed), coqfmt.Bool(alive), st, coqXFF(o.XFF),
 		coqfmt.Bytes(net.ParseIP("127.0.0.1").To16()), coqfmt.Bool(o.Closed || o.Status != 0))
-	return coq, ecaseJSON{"e2e", hex.EncodeToString(h), cuts, ""}
+	note := ""
+	if overTLS {
+		note = "tls"
+	}
+	return coq, ecaseJSON{"e2e", hex.EncodeToString(h), cuts, note}
 }
 
 // timeoutProbes measures the header timeout on the real proxy (tested, not proved).
@@ -471,7 +556,7 @@ func replayE2E(rp replayIn, out string, m *meta) {
 		}
 		return ch
 	}
-	coq, js := e2eCase(ensure, h, rng.New(1), []byte("PROXY TCP4 9.9.9.9 8.8.8.8 999 888\r\n"), &em)
+	coq, js := e2eCase(ensure, h, rng.New(1), []byte("PROXY TCP4 9.9.9.9 8.8.8.8 999 888\r\n"), &em, rp.Note == "tls")
 	if ch != nil && !ch.dead() {
 		ch.stop()
 	}
